@@ -129,6 +129,33 @@ func evalEnum(t *testing.T, g Graph, sub string) {
 	rep.EvalCounted(true, "class:"+class)
 }
 
+// evalDup judges every variant of g in which one `depends` entry is listed
+// twice or three times (a multigraph: the verdict must not change).
+func evalDup(t *testing.T, g Graph, sub string) {
+	for i := range g.Deps {
+		for k := range g.Deps[i] {
+			for _, times := range []int{1, 2} {
+				d := Graph{Names: g.Names, Deps: append([][]string{}, g.Deps...)}
+				// the duplicate goes in front of, or behind, the other entries
+				dup := append([]string{}, g.Deps[i]...)
+				for x := 0; x < times; x++ {
+					if (k+x)%2 == 0 {
+						dup = append(dup, g.Deps[i][k])
+					} else {
+						dup = append([]string{g.Deps[i][k]}, dup...)
+					}
+				}
+				d.Deps[i] = dup
+				msg, class := judge(d)
+				if msg != "" {
+					rep.Fail(t, ID, sub, d, nil, "%s (an entry of `depends` is listed %d times)", msg, times+1)
+				}
+				rep.EvalCounted(true, "class:"+class, "duplicate-depends-entry")
+			}
+		}
+	}
+}
+
 // TestExhaustive enumerates every digraph (self-loops included) on <= 4 steps
 // and loop-free edge sets on 5 steps (quick: a 2^16 stride sample; thorough: all 2^20).
 func TestExhaustive(t *testing.T) {
@@ -139,8 +166,19 @@ func TestExhaustive(t *testing.T) {
 			evalEnum(t, fromMask(n, m, true), "enum")
 		}
 	}
+	dupN := 3
+	if rep.Thorough() {
+		dupN = 4
+	}
+	for n := 1; n <= dupN; n++ {
+		total := uint64(1) << uint(n*n)
+		for m := uint64(shard); m < total; m += uint64(nsh) {
+			evalDup(t, fromMask(n, m, true), "enumdup")
+		}
+	}
 	if shard == 0 {
 		rep.ExhaustiveSpace("every digraph incl. self-loops on 1..4 named steps (2+16+512+65536 edge sets), each also with one dangling name")
+		rep.ExhaustiveSpace(fmt.Sprintf("every digraph incl. self-loops on 1..%d named steps with any one depends entry listed two or three times", dupN))
 	}
 	total := uint64(1) << 20
 	stride := uint64(16)
@@ -219,6 +257,20 @@ func genRandom(t *rapid.T) Graph {
 		i := rapid.IntRange(0, n-1).Draw(t, "dup")
 		if len(g.Deps[i]) > 0 {
 			g.Deps[i] = append(g.Deps[i], g.Deps[i][0], g.Deps[i][0])
+		}
+	}
+	// independently of what was planted: some entries listed more than once
+	if rapid.IntRange(0, 2).Draw(t, "dups") == 0 {
+		for x := rapid.IntRange(1, 3).Draw(t, "nDup"); x > 0; x-- {
+			i := rapid.IntRange(0, n-1).Draw(t, "dupStep")
+			if len(g.Deps[i]) > 0 {
+				e := g.Deps[i][rapid.IntRange(0, len(g.Deps[i])-1).Draw(t, "dupEntry")]
+				if rapid.Bool().Draw(t, "dupFront") {
+					g.Deps[i] = append([]string{e}, g.Deps[i]...)
+				} else {
+					g.Deps[i] = append(g.Deps[i], e)
+				}
+			}
 		}
 	}
 	// declaration order permuted
